@@ -1,5 +1,72 @@
-(* QueueIO.v — stub: replaced by the real decoder/runner when the property is built. *)
-From Coq Require Import List.
-From M Require Import Sx.
+(* QueueIO.v — the queued machine with several models: Queue.drain instantiated with the
+   flat engine; decoding of cases / encoding of observations. *)
+From Coq Require Import List Arith Bool.
+From M Require Import Sx Base Flat FlatSpec FlatIO Queue.
 Import ListNotations.
-Definition run_queue_case (x : sx) : sx := L [N 0].
+
+Record world : Type := mkWorld { w_states : list (model * state); w_pos : nat }.
+
+Fixpoint set_state (l : list (model * state)) (m : model) (s : state) : list (model * state) :=
+  match l with
+  | [] => [(m, s)]
+  | (m', s') :: r => if Nat.eqb m m' then (m, s) :: r else (m', s') :: set_state r m s
+  end.
+
+Definition state_of (w : world) (m : model) : state :=
+  match lookup (w_states w) m with Some s => s | None => 0 end.
+
+Definition acts_of (tr : list item) : list action := flat_map it_acts tr.
+
+Section Inst.
+  Variable mc : machine.
+  Variable ev : env.
+
+  (* processing one queue entry = Event._trigger of the flat engine on that model *)
+  Definition qstep (w : world) (q : qentry) : (list item * list action * option exn * world) :=
+    let c := mkCtx (q_model q) (q_payload q) (m_send_event mc) in
+    match trigger mc ev c (q_event q) (w_pos w) (state_of w (q_model q)) with
+    | (tr, st', r) =>
+        (tr, acts_of tr, match r with inl e => Some e | inr _ => None end,
+         mkWorld (set_state (w_states w) (q_model q) st') (w_pos w + length tr))
+    end.
+
+  Definition nested_payload (q : qentry) (k : nat) : nat := 1000 + 16 * q_id q + k.
+
+  Definition e_block (b : block (list item)) : sx :=
+    L [N (q_id (b_entry b)); N (q_model (b_entry b)); N (q_event (b_entry b)); N (q_payload (b_entry b));
+       e_list e_item (b_trace b); e_option e_exn (b_raised b)].
+  Definition e_reason (r : drop_reason) : sx :=
+    match r with DroppedByRemove m d => L [N 0; N m; N d] | DroppedByRaise d => L [N 1; N d] end.
+
+  (* history of top-level calls model.trigger(event) on a queued machine *)
+  Fixpoint run_qhistory (fuel : nat) (hs : list (model * event * nat)) (w : world)
+           (s : qstate) : list sx :=
+    match hs with
+    | [] => []
+    | (m, e, a) :: rest =>
+        match top_trigger qstep nested_payload fuel w s m e a with
+        | None => [L [N 9]]                                        (* out of fuel *)
+        | Some (bs, r, w', s') =>
+            L [e_list e_block bs;
+               match r with Some e => L [N 1; e_exn e] | None => L [N 0; N 1] end;
+               e_list (e_pair e_nat e_nat) (w_states w');
+               e_list e_nat (qs_models s');
+               N (length (qs_queue s'));
+               e_list (fun d => L [N (q_id (fst d)); e_reason (snd d)]) (qs_dropped s')]
+            :: run_qhistory fuel rest w' s'
+        end
+    end.
+End Inst.
+
+(* case := [machine; env; models [(id, initial state)]; history [(model, event, payload)]] *)
+Definition run_queue_case (x : sx) : sx :=
+  match x with
+  | L [mcx; evx; msx; hx] =>
+      match d_machine mcx, d_env evx, d_list (d_pair d_nat d_nat) msx,
+            d_list (fun y => match y with L [N m; N e; N a] => Some (m, e, a) | _ => None end) hx with
+      | Some mc, Some ev, Some ms, Some hs =>
+          L [N 1; L (run_qhistory mc ev 200 hs (mkWorld ms 0) (mkQS [] (map fst ms) 0 []))]
+      | _, _, _, _ => L [N 0]
+      end
+  | _ => L [N 0]
+  end.
